@@ -267,6 +267,18 @@ class Model:
                         k += 1
                         self._one_event(w, ns, name, id, args, ret)
                         n += 1
+        # a BINARY_EVENT that announces zero attachments is complete as it
+        # stands (the reference parser dispatches it at once)
+        w.script['ret'] = 'z'
+        w.deliver('50-3["h",1]')
+        log = w.take_log()
+        frames = [f for f in w.take_outbox() if f[0] != 'eio']
+        if log != [('fn', '/', 'h', [1])] or \
+                frames != [('pkt', 3, '/', 3, ['z'])]:
+            self._bad(w, 'zero-attachments', f'BINARY_EVENT with 0 '
+                      f'attachments: handler log {log!r}, client sent '
+                      f'{frames!r}')
+            w.c._binary_packet = None
         w.obs_key = n
         # ledger vs client table
         for ns in NSS:
